@@ -191,12 +191,12 @@ def run(ctx):
     r = random.Random(ctx.seed)
     st = CO.Stats()
     quick = ctx.quick
-    n = 150 if quick else 4000
+    n = 150 if quick else 1500
     cases = [case_ode(r, st, quick) for _ in range(n)]
     # explicit-tolerance class from its own generator stream (the older stream is unchanged)
     r2 = random.Random(ctx.seed * 7919 + 34)
-    cases += [case_ode(r2, st, quick, explicit=True) for _ in range(60 if quick else 1500)]
-    info, fails = CO.run_cases(cases, ctx, nworkers=6, default_timeout=30.0, budget_s=100 if quick else 3600)
+    cases += [case_ode(r2, st, quick, explicit=True) for _ in range(60 if quick else 600)]
+    info, fails = CO.run_cases(cases, ctx, nworkers=6, default_timeout=30.0, budget_s=100 if quick else 1500)
     # split the failing inputs by what failed, so that the order-dependence finding has its own stable site
     out = []
     for f in fails:
